@@ -139,7 +139,9 @@ def run(res, ctx):
                 if xs is None:
                     continue
                 x_rej = xs["stop"][0] == 1
-                if rejected and cls == 1 and nonterminating_split(r["case"]) and "split-residue" in known_ids:
+                if rejected and cls == 17 and "global-split-near" in known_ids:
+                    known_hit["global-split-near"] += 1
+                elif rejected and cls == 1 and nonterminating_split(r["case"]) and "split-residue" in known_ids:
                     known_hit["split-residue"] += 1
                 elif rejected and cls not in LISTED:
                     res.violation("failing-input", "security %s rejected for a reason the property does not list (%s): %s" % (sname, core.REJ_NAMES.get(cls, cls), so.get("msg")),
